@@ -342,7 +342,7 @@ class NadirLRMAltimetry(object):
         else:
             # no echo from the bottom
 
-            layer_echo += [np.zeros_like(layer_echo[-1])]
+            layer_echo += [0.]
 
         if len(mu_upper_interface[0]) > 1:
             # convert the scalar into matrix to get an homogeneous list before transformation to numpy array
